@@ -427,12 +427,59 @@ func forests(n int) [][]*shape {
 	return out
 }
 
-func countShape(s *shape) int {
-	n := 1
-	for _, k := range s.kids {
-		n += countShape(k)
+var exhMatchers = []MSpec{{"=", "a", "x"}, {"=", "a", "y"}, {"=", "b", "x"}, {"=", "b", "y"}}
+
+// decorate yields every assignment of (one of 4 equality matchers, continue flag) to the non-root nodes of s.
+func decorate(s *shape, root bool, emit func(*RSpec)) {
+	var kids func(i int, acc []*RSpec, done func([]*RSpec))
+	kids = func(i int, acc []*RSpec, done func([]*RSpec)) {
+		if i == len(s.kids) {
+			done(acc)
+			return
+		}
+		decorate(s.kids[i], false, func(k *RSpec) { kids(i+1, append(acc[:i:i], k), done) })
 	}
-	return n
+	kids(0, nil, func(ks []*RSpec) {
+		cp := append([]*RSpec(nil), ks...)
+		if root {
+			emit(&RSpec{Receiver: "r0", Routes: cp})
+			return
+		}
+		for mi, m := range exhMatchers {
+			for _, cont := range []bool{false, true} {
+				emit(&RSpec{Receiver: receivers[1+mi%4], Matchers: []MSpec{m}, Continue: cont, Routes: cp})
+			}
+		}
+	})
+}
+
+func exhaustiveLabelSets() []map[string]string {
+	var out []map[string]string
+	for _, a := range []string{"", "x", "y"} {
+		for _, b := range []string{"", "x", "y"} {
+			ls := map[string]string{}
+			if a != "" {
+				ls["a"] = a
+			}
+			if b != "" {
+				ls["b"] = b
+			}
+			out = append(out, ls)
+		}
+	}
+	return out
+}
+
+// exhaustiveCases: every tree with at most maxN nodes, every decoration, all 9 label sets over {a,b} x {x,y}.
+func exhaustiveCases(maxN int, emit func(Case)) {
+	lss := exhaustiveLabelSets()
+	for n := 1; n <= maxN; n++ {
+		for _, s := range shapes(n) {
+			decorate(s, true, func(r *RSpec) {
+				emit(Case{Receivers: receivers, TIs: tiNames, Root: r, LabelSets: lss, Note: fmt.Sprintf("exhaustive-%d", n)})
+			})
+		}
+	}
 }
 
 // ---------- running the implementation ----------
@@ -598,9 +645,9 @@ func apiReceivers(t *testing.T, cfg *config.Config, c *Case) (map[string][]strin
 
 type notification struct {
 	receiver, routeID string
-	repeat           time.Duration
-	mute, active     []string
-	alerts           []string // lsKey of each alert
+	repeat            time.Duration
+	mute, active      []string
+	alerts            []string // lsKey of each alert
 }
 
 type recStage struct {
@@ -625,14 +672,15 @@ func (s *recStage) Exec(ctx context.Context, _ *slog.Logger, as ...*alert.Alert)
 }
 
 type dispObs struct {
-	groupRoutes map[string][]string // alert -> sorted route IDs of the aggregation groups holding it
-	groupRecv   map[string][]string // alert -> sorted receivers reported by Groups
-	notified    map[string][]string // alert -> sorted "routeID|receiver" it was notified through
-	stageOpts   []notification
+	groupRoutes  map[string][]string // alert -> sorted route IDs of the aggregation groups holding it
+	groupRecv    map[string][]string // alert -> sorted receivers reported by Groups
+	notified     map[string][]string // alert -> sorted "routeID|receiver" it was notified through
+	stageOpts    []notification
+	secondWindow bool
 }
 
 // runDispatcher feeds the case's alerts to a real Dispatcher (virtual time) and reports where they ended up.
-func runDispatcher(t *testing.T, route *dispatch.Route, c *Case, maxWait time.Duration) dispObs {
+func runDispatcher(t *testing.T, route *dispatch.Route, c *Case, maxWait, maxInterval time.Duration, expected map[string][]string) dispObs {
 	o := dispObs{groupRoutes: map[string][]string{}, groupRecv: map[string][]string{}, notified: map[string][]string{}}
 	synctest.Test(t, func(t *testing.T) {
 		logger := promslog.NewNopLogger()
@@ -674,6 +722,32 @@ func runDispatcher(t *testing.T, route *dispatch.Route, c *Case, maxWait time.Du
 		}
 		time.Sleep(maxWait + time.Second)
 		synctest.Wait()
+		// An alert that joined an already flushed group (group_wait 0 fires while the other alerts are still being
+		// ingested) is notified at the group's next group_interval: widen the window once if something is missing.
+		// (When a notification happens is C01's business; here only through which routes.)
+		missing := func() bool {
+			st.mtx.Lock()
+			defer st.mtx.Unlock()
+			got := map[string]bool{}
+			for _, n := range st.ns {
+				for _, a := range n.alerts {
+					got[a+"\x00"+n.routeID+"|"+n.receiver] = true
+				}
+			}
+			for a, rs := range expected {
+				for _, r := range rs {
+					if !got[a+"\x00"+r] {
+						return true
+					}
+				}
+			}
+			return false
+		}
+		if missing() {
+			o.secondWindow = true
+			time.Sleep(maxInterval + time.Second)
+			synctest.Wait()
+		}
 		d.Stop()
 		alerts.Close()
 		cancel()
@@ -788,12 +862,12 @@ func specAt(root *RSpec, p []int) []*RSpec { // chain root..node
 }
 
 type wantOpts struct {
-	receiver         string
-	groupAll         bool
-	groupBy          []string
-	gw, gi, ri       time.Duration
-	mute, active     []string
-	labels           map[string]string
+	receiver     string
+	groupAll     bool
+	groupBy      []string
+	gw, gi, ri   time.Duration
+	mute, active []string
+	labels       map[string]string
 }
 
 // nearest ancestor-or-self that sets the option, else the default
@@ -883,7 +957,7 @@ func runCase(t *testing.T, run *vh.Run, c *Case, withDispatcher bool) {
 	pathOf := map[*dispatch.Route][]int{}
 	ids, idxs := map[string]bool{}, map[int]bool{}
 	var nodeTerms []string
-	maxWait := time.Duration(0)
+	maxWait, maxInterval := time.Duration(0), time.Duration(0)
 	for _, n := range nodes {
 		pathOf[n.r] = n.path
 		nodeTerms = append(nodeTerms, vh.App("mkON", coqPath(n.path), coqOpts(&n.r.RouteOpts), vhm.Matchers(n.r.Matchers),
@@ -898,6 +972,9 @@ func runCase(t *testing.T, run *vh.Run, c *Case, withDispatcher bool) {
 		idxs[n.r.Idx] = true
 		if n.r.RouteOpts.GroupWait > maxWait {
 			maxWait = n.r.RouteOpts.GroupWait
+		}
+		if n.r.RouteOpts.GroupInterval > maxInterval {
+			maxInterval = n.r.RouteOpts.GroupInterval
 		}
 		// ---- oracle: option inheritance against the configuration as written ----
 		w := specOpts(specAt(c.Root, n.path))
@@ -945,7 +1022,18 @@ func runCase(t *testing.T, run *vh.Run, c *Case, withDispatcher bool) {
 	}
 	var disp dispObs
 	if withDispatcher {
-		disp = runDispatcher(t, root, c, maxWait)
+		expected := map[string][]string{}
+		for _, ls := range c.LabelSets {
+			for _, m := range root.Match(toLabelSet(ls)) {
+				expected[lsKey(ls)] = append(expected[lsKey(ls)], m.ID()+"|"+m.RouteOpts.Receiver)
+			}
+		}
+		disp = runDispatcher(t, root, c, maxWait, maxInterval, expected)
+		if disp.secondWindow {
+			run.Count("dispatcher", "second observation window (alert joined an already flushed group)")
+		} else {
+			run.Count("dispatcher", "all notifications within group_wait")
+		}
 	}
 
 	var qTerms []string
@@ -1073,6 +1161,17 @@ func TestCheck(t *testing.T) {
 	}
 	for i := range cases {
 		runCase(t, run, &cases[i], true)
+	}
+	if env.Replay == "" && (env.Tier == "thorough" || env.Mode == "search") {
+		// exhaustive small scope: all trees with <= 5 nodes (<= 4 in search mode) over 2 labels x 2 values, all continue flags
+		maxN := 5
+		if env.Tier != "thorough" {
+			maxN = 4
+		}
+		exhaustiveCases(maxN, func(c Case) {
+			runCase(t, run, &c, false)
+			run.Count("exhaustive", c.Note)
+		})
 	}
 	if err := run.Finish("random routing trees (depth <= 4, fan-out <= 4) as configuration text through config.Load + dispatch.NewRoute; per tree 14 label sets over 3 labels x {x,y,xy,empty,absent}; non-trivial = some label set is routed below the root; distinct by full case text"); err != nil {
 		t.Fatal(err)
